@@ -367,6 +367,16 @@ func c02Enumerate(tier string, emit func(core.Case)) {
 	for _, t := range c02Texts {
 		emit(&c02Case{Part: "text", Src: t})
 	}
+	// (iii-b) preformatted content: whitespace is content inside <pre> and <textarea>
+	preTok := []string{"\n", " ", "x", "<b>y</b>", "<code>z\n</code>", "&lt;"}
+	tokenStrings(preTok, 3, func(tok []int) {
+		body := joinTokens(preTok, tok)
+		emit(&c02Case{Part: "text", Src: "<pre>" + body + "</pre>"})
+		emit(&c02Case{Part: "text", Src: "<div><p>k</p><pre class=\"c\">" + body + "</pre></div>"})
+		if !strings.Contains(body, "<b>") && !strings.Contains(body, "<code>") {
+			emit(&c02Case{Part: "text", Src: "<div><textarea>" + body + "</textarea></div>"})
+		}
+	})
 	// (iv) documents
 	bodies := []string{"<p>t</p>", "<div class=\"a\"><span>x</span></div>", "t", "<p>&amp;</p><hr>", "<table><tr><td>x</td></tr></table>", "<script>var a = 1 < 2;</script><p>x</p>"}
 	heads := []string{"", "<title>T</title>", "<title>a &amp; b</title><style>p{color:red}</style>", `<meta charset="utf-8"><link rel="x" href="y">`}
